@@ -169,5 +169,21 @@ func init() {
 			Recv: "kubernetesBindingsController", Func: "EnableKubernetesBindings",
 			Fields: []string{"KubernetesBindings"},
 			Calls:  []string{"AddMonitor", "HasMonitor", "GetMonitor", "StartMonitor", "StopMonitor", "setBindingMonitorLinks", "getBindingMonitorLinksById", "HandleEvent"}},
+		// what `unlock_only_finished_synchronizations` models: the monitor IDs of a combined task are those of the head
+		// task followed by those of the merged tasks (combine: `mons := t.mons ++ others.flatMap mons`) …
+		skelTarget{Name: "C06.combineBindingContextForHook", File: "pkg/shell-operator/combine_binding_context.go", Recv: "ShellOperator", Func: "combineBindingContextForHook",
+			Fields: []string{"MonitorIDs", "BindingContexts", "Group"},
+			Calls:  []string{"GetMonitorIDs", "GetBindingContext", "GetHookName", "Iterate", "Filter", "make", "append"}},
+		// … and UnlockKubernetesEventsFor(id) enables the event callback of exactly the monitor with that ID
+		// (step: `.unlock t'.mons`), only UnlockEvents walks over all monitors of the hook
+		skelTarget{Name: "kubernetesBindingsController.UnlockEventsFor", File: "pkg/hook/controller/kubernetes_bindings_controller.go",
+			Recv: "kubernetesBindingsController", Func: "UnlockEventsFor",
+			Calls: []string{"GetMonitor", "EnableKubeEventCb", "iterateBindingMonitorLinks", "UnlockEvents", "UnlockEventsFor", "append", "len"}},
+		skelTarget{Name: "kubernetesBindingsController.UnlockEvents", File: "pkg/hook/controller/kubernetes_bindings_controller.go",
+			Recv: "kubernetesBindingsController", Func: "UnlockEvents",
+			Calls: []string{"GetMonitor", "EnableKubeEventCb", "iterateBindingMonitorLinks", "UnlockEvents", "UnlockEventsFor", "append", "len"}},
+		skelTarget{Name: "HookController.UnlockKubernetesEventsFor", File: "pkg/hook/controller/hook_controller.go",
+			Recv: "HookController", Func: "UnlockKubernetesEventsFor",
+			Calls: []string{"UnlockEvents", "UnlockEventsFor"}},
 	)
 }
